@@ -94,14 +94,11 @@ pub fn compile(cps: &[u32], fl: Fl, no_opt: bool) -> Result<Regex, String> {
     let r = catch_unwind(AssertUnwindSafe(|| Regex::from_unicode(cps.iter().copied(), fl.regress(no_opt))));
     let rep = regress::verif::report();
     regress::verif::set_fuel(u64::MAX);
+    if rep.exhausted {
+        return Err("FUEL: compile budget exhausted".into());
+    }
     match r {
-        Ok(Ok(re)) => {
-            if rep.exhausted {
-                Err("FUEL: compile budget exhausted".into())
-            } else {
-                Ok(re)
-            }
-        }
+        Ok(Ok(re)) => Ok(re),
         Ok(Err(e)) => Err(e.text),
         Err(p) => Err(format!("PANIC: {}", panic_msg(p))),
     }
